@@ -78,7 +78,21 @@ Val gen_val(Chooser& ch, const std::string& key) {
     case 5: { v.type = 's'; v.cls = "str_maxlen"; for (size_t i = 0; i < lim; i++) v.text += (char)('A' + (i % 26)); break; }
     case 6: { v.type = 's'; v.cls = "str_overlong"; for (size_t i = 0; i < lim + 1 + ch.draw(0, 3); i++) v.text += (char)('a' + (i % 26)); break; }
     case 7: { v.type = 's'; v.cls = "str_blanks"; v.text = std::string(ch.draw(0, 2), ' ') + "in ner" + std::string(ch.draw(0, 2), ' '); break; }
-    case 8: { v.type = 's'; v.cls = "str_quote"; static const char* q[] = {"it's", "'", "''", "a'b'c", "'lead", "trail'"}; v.text = q[ch.draw(0, 5)]; break; }
+    case 8: {
+      v.type = 's'; v.cls = "str_quote";
+      if (gen_version() >= 2 && ch.coin(2, 3)) {
+        // quotes anywhere, in particular first and last, in values of every length up to the limit (a quote takes two
+        // characters of the card, so long ones may be refused - acceptance of quoted values is free - but whatever
+        // is accepted has to come back)
+        size_t n = 1 + ch.draw(0, lim ? lim - 1 : 0);
+        int where = (int)ch.draw(0, 3);  // 0 trailing, 1 leading, 2 both, 3 scattered only
+        for (size_t i = 0; i < n; i++) v.text += ch.coin(1, 8) ? '\'' : (char)('a' + (i % 26));
+        if (where == 0 || where == 2) v.text.back() = '\'';
+        if (where == 1 || where == 2) v.text.front() = '\'';
+        if (v.text.find('\'') == std::string::npos) v.text[n / 2] = '\'';
+        v.cls = where == 0 || where == 2 ? "str_quote_trailing" : "str_quote_generated";
+      } else { static const char* q[] = {"it's", "'", "''", "a'b'c", "'lead", "trail'"}; v.text = q[ch.draw(0, 5)]; }
+      break; }
     default: {
       v.type = 's'; v.cls = "str_printable";
       size_t n = 1 + ch.draw(0, lim ? std::min<size_t>(lim - 1, 30) : 0);
